@@ -84,7 +84,7 @@ func (sc *specCtx) eval(e SpecExpr) Value {
 		var vars []Term
 		var guards []Term
 		for _, v := range x.Vars {
-			t, err := sc.u.eng.resolveType(sc.fr.pkg, v.Type)
+			t, err := sc.resolveType(v.Type)
 			if err != nil {
 				sc.errorf("%v", err)
 			}
@@ -130,6 +130,9 @@ func (sc *specCtx) eval(e SpecExpr) Value {
 				}
 			}
 			if mentions {
+				if strings.HasPrefix(t.S, "(<= 0 (slen ") || strings.HasPrefix(t.S, "(= (slen (sconcat ") {
+					continue // covered by the built-in string axioms of the prelude
+				}
 				// type and heap facts (machine ranges, references <= clock) hold for every value
 				// of the bound variables: assume them universally instead of guarding the body
 				savedSt.assume(Forall(vars, t))
@@ -153,6 +156,30 @@ func (sc *specCtx) eval(e SpecExpr) Value {
 	}
 	sc.errorf("bad spec expression")
 	return Value{}
+}
+
+// resolveType resolves a type name used in a clause: in the package of the file the clause was
+// written in, then in the package of the function, then in the root package.
+func (sc *specCtx) resolveType(name string) (types.Type, error) {
+	var firstErr error
+	var pkgs []*types.Package
+	if sc.c != nil && sc.c.File != "" {
+		pkgs = append(pkgs, sc.u.eng.pkgOfFile(sc.c.File).Types)
+	}
+	if sc.fr != nil && sc.fr.pkg != nil {
+		pkgs = append(pkgs, sc.fr.pkg)
+	}
+	pkgs = append(pkgs, sc.u.eng.root.Types)
+	for _, p := range pkgs {
+		t, err := sc.u.eng.resolveType(p, name)
+		if err == nil {
+			return t, nil
+		}
+		if firstErr == nil {
+			firstErr = err
+		}
+	}
+	return nil, firstErr
 }
 
 func (sc *specCtx) bool(e SpecExpr) Term {
@@ -469,6 +496,17 @@ func (sc *specCtx) goExpr(e ast.Expr, subs map[string]SpecExpr) Value {
 		return u.load(sc.cur, lv)
 	case *ast.SliceExpr:
 		bv := sc.goExpr(x.X, subs)
+		if isString(bv.T) {
+			lo, hi := IntLit(0), u.slenOf(sc.st, bv.term())
+			if x.Low != nil {
+				lo = sc.goExpr(x.Low, subs).term()
+			}
+			if x.High != nil {
+				hi = sc.goExpr(x.High, subs).term()
+			}
+			f := u.d.Fun("ssub", []Sort{SStr, SInt, SInt}, SStr)
+			return scalar(bv.T, App(f, SStr, bv.term(), lo, hi))
+		}
 		if !bv.isSlice() {
 			sc.errorf("slice expression on non-slice in spec")
 		}
@@ -620,14 +658,14 @@ func (sc *specCtx) call(x *ast.CallExpr, subs map[string]SpecExpr) Value {
 		return scalar(t, v.term())
 	case "is":
 		v := arg(0)
-		t, err := u.eng.resolveType(sc.fr.pkg, types.ExprString(x.Args[1]))
+		t, err := sc.resolveType(types.ExprString(x.Args[1]))
 		if err != nil {
 			sc.errorf("%v", err)
 		}
 		return boolV(u.hasDynType(sc.st, v, t))
 	case "as":
 		v := arg(0)
-		t, err := u.eng.resolveType(sc.fr.pkg, types.ExprString(x.Args[1]))
+		t, err := sc.resolveType(types.ExprString(x.Args[1]))
 		if err != nil {
 			sc.errorf("%v", err)
 		}
